@@ -10,7 +10,7 @@ LEVEL = 'exploration'
 RULE = ('Hypothesis draws max_http_buffer_size from {1, 2, 5, 16, 100, 1000, default}, a carrier '
         '{POST body, frame on an established WebSocket (ws-first or upgraded), first frame and '
         'second frame of an upgrade socket}, a length from {limit-2..limit+2, 0, 1, 10*limit}, '
-        'text or binary content, a declared Content-Length smaller / equal / larger than the body, '
+        'text, binary or base64-text (b...) content, a declared Content-Length smaller / equal / larger than the body, '
         'the number of packets in the body 0..18 and the number of body chunks; each case runs on a '
         'fresh world of either server. Oracle: no message event from a body declared over the '
         'limit or from a frame longer than it; every wsgi.input.read(n) has 0 <= n <= min(declared, '
